@@ -101,6 +101,10 @@ pub const BAD_LOCATIONS: [&str; 7] = ["cat", "../cat/pkg", "/cat/pkg", "a/b/c", 
 
 // ------------------------------------------------------------------ generator
 
+fn key_char(c: char) -> bool {
+    c.is_ascii_uppercase() || c == '_'
+}
+
 fn scalar_char(c: char) -> bool {
     c != '\n' && c != '\r'
 }
@@ -127,6 +131,11 @@ fn key_line(with_faults: bool) -> BoxedStrategy<String> {
         5 => (prop::collection::vec(prop::sample::select(vec!["PYTHON_VERSION_REQD=312", "PHP_VERSION_REQD=83", "X=", "A=b=c"]), 0..=4), sep).prop_map(|(v, s)| format!("MULTI_VERSION={}", v.join(s))),
         // ignored lines
         5 => prop::sample::select(vec!["", "   ", "\t", "UNKNOWN_KEY=value", "no equals here", "lowercase=1", "PKGNAMES=x", "XPKGNAME=y", "=novalue", "KEY ="]).prop_map(String::from),
+        // unknown keys spelled like identifiers of the library's own source, with values that
+        // would matter if the key were taken for a known one
+        3 => (crate::engine::dict::string_token(key_char, "X"), prop::sample::select(vec!["cat/pkg", "not a path", "foo-[0-9]*:../../a/b", "bad", "", "x y", "../../a/b"]))
+            .prop_filter("not one of the 15 known keys", |(k, _)| k != "PKGNAME" && !SCALARS.contains(&k.as_str()) && !LISTS.contains(&k.as_str()) && k != "PKG_LOCATION")
+            .prop_map(|(k, v)| format!("{}={}", k, v)),
         if with_faults { 2 } else { 0 } => (0usize..BAD_DEPENDS.len(), 0usize..GOOD_DEPENDS.len(), any::<bool>()).prop_map(|(b, g, first)| {
             if first { format!("ALL_DEPENDS={} {}", BAD_DEPENDS[b], GOOD_DEPENDS[g]) } else { format!("ALL_DEPENDS={} {}", GOOD_DEPENDS[g], BAD_DEPENDS[b]) }
         }),
